@@ -178,7 +178,30 @@ def decide_case(case, pf, budget):
                 # one counterexample per obligation kind is enough for this wrapper
                 break
             else:
-                out['undecided'].append({'kind': ob['kind'], 'desc': ob['desc']})
+                note = None
+                if ob0.get('slices') and not out.get('slices_hopeless'):
+                    # full domain undecided: decide the stated bounded sub-domains (reported as bounded, never as discharged)
+                    okn, cexm = 0, None
+                    for sname, cons in ob0['slices']:
+                        rs, ms, dts = solve.z3_check(list(case.assumptions) + [sym.bz(cons)], sym.bz(ob0['formula']), budget.get('slice_ms', 6000))
+                        pf.stats.calls['z3'] += 1
+                        pf.stats.time['z3'] += dts
+                        if rs == 'unsat':
+                            okn += 1
+                        elif rs == 'sat':
+                            cexm = ms
+                            break
+                    if cexm is not None:
+                        out['sat'].append({'kind': ob['kind'], 'desc': ob['desc'], 'lane': lane, 'model': cexm, 'solver': 'z3', 'ob': ob0})
+                        break
+                    out['bounded'] = out.get('bounded', 0) + okn
+                    if okn == 0:
+                        out['slices_hopeless'] = True
+                    note = 'full domain undecided; %d of %d bounded sub-domains decided: %s' % (okn, len(ob0['slices']), '; '.join(n for n, _ in ob0['slices']))
+                rec = {'kind': ob['kind'], 'desc': ob['desc']}
+                if note:
+                    rec['note'] = note
+                out['undecided'].append(rec)
                 unknown_by_kind[ob['kind']] = unknown_by_kind.get(ob['kind'], 0) + 1
     return out
 
